@@ -7,8 +7,23 @@ import numpy as np
 from formak.exceptions import ModelConstructionError
 from matplotlib import pyplot as plt
 from numpy.typing import NDArray
-from sympy import Symbol, diff
+from sympy import Integer, Symbol, diff
 from sympy.solvers.solveset import nonlinsolve
+
+
+def evaluate_large_integers(expr):
+    """
+    Replace integer literals that do not fit a double's 53 bit mantissa by floats.
+
+    simplify can fold a coefficient into a literal (20*log(10) -> log(10**20));
+    numpy cannot take the log of such a Python int and C++ has no integer type
+    for it, so the generated code would fail to run / compile.
+    """
+    try:
+        large = {atom: atom.evalf() for atom in expr.atoms(Integer) if abs(atom) > 2**53}
+    except AttributeError:
+        return expr
+    return expr.xreplace(large) if large else expr
 
 
 class UiModelBase:
